@@ -502,6 +502,11 @@ def blen(s):
     return len(s.encode("utf8"))
 
 
+def prefixed(s, prefix):
+    """`0x` / `0b` announce digits: the prefix counts as one only when no sign follows it"""
+    return s.startswith(prefix) and s[len(prefix):len(prefix) + 1] not in ("+", "-")
+
+
 def int_text(s, radix, lo, hi, signed=True):
     m = re.fullmatch(r"([+-]?)([0-9A-Za-z]+)", s, re.A)
     if not m:
@@ -625,7 +630,8 @@ def oracle(method, args):
     if method in ("parse_int", "parse_bigint"):
         lo, hi, kind = (I32_MIN, I32_MAX, "int") if method == "parse_int" else (I128_MIN, I128_MAX, "big")
         s = a[0]
-        z = int_text(s[2:], 16, lo, hi) if s.startswith("0x") else int_text(s, 10, lo, hi)
+        # a sign stands BEFORE a number, never between the `0x` prefix and the digits: "0x-1F" is not a number
+        z = int_text(s[2:], 16, lo, hi) if prefixed(s, "0x") else int_text(s, 10, lo, hi)
         return val(V("nil")) if z is None else val(V(kind, z))
     if method in ("parse_int_radix", "parse_bigint_radix"):
         lo, hi, kind = (I32_MIN, I32_MAX, "int") if method == "parse_int_radix" else (I128_MIN, I128_MAX, "big")
@@ -634,13 +640,13 @@ def oracle(method, args):
             return FAIL
         # the radix is stated by the caller: `0x` announces hexadecimal digits and nothing else (in radix 34 and up
         # `0` and `x` are ordinary digits; below that a text with an `x` in it is not a number)
-        z = int_text(s[2:] if (r == 16 and s.startswith("0x")) else s, r, lo, hi)
+        z = int_text(s[2:] if (r == 16 and prefixed(s, "0x")) else s, r, lo, hi)
         return val(V("nil")) if z is None else val(V(kind, z))
     if method == "parse_bool":
         return val(V("bool", a[0] == "true")) if a[0] in ("true", "false") else val(V("nil"))
     if method == "parse_byte":
         s = a[0]
-        z = int_text(s[2:], 2, 0, 255, False) if s.startswith("0b") else int_text(s, 10, 0, 255, False)
+        z = int_text(s[2:], 2, 0, 255, False) if prefixed(s, "0b") else int_text(s, 10, 0, 255, False)
         return val(V("nil")) if z is None else val(V("byte", z))
     if method == "parse_float":
         b = float_text(a[0])
@@ -932,6 +938,21 @@ def writable(case):
     return True
 
 
+def gen_sign_after_prefix():
+    """a sign between the `0x` / `0b` prefix and the digits (Rust's from_str_radix reads a sign of its own): run in EVERY tier"""
+    S, I = (lambda x: V("str", x)), (lambda x: V("int", x))
+    out = []
+    for t in ["0x-1F", "0x+1F", "0x-0", "0x+0", "0x-", "0x+", "0x-80000000", "0x+7fffffff", "0x--1", "0x+-1", "0x-z", "0x+10"]:
+        out.append(("parse_int", [S(t)]))
+        out.append(("parse_bigint", [S(t)]))
+        for r in (16, 10, 36):
+            out.append(("parse_int_radix", [S(t), I(r)]))
+            out.append(("parse_bigint_radix", [S(t), I(r)]))
+    for t in ["0b+1", "0b-0", "0b+0", "0b-1", "0b+11111111", "0b++1", "0b+", "0b-"]:
+        out.append(("parse_byte", [S(t)]))
+    return out
+
+
 def gen_random(rng, n):
     S, I, B, Y, F = (lambda x: V("str", x)), (lambda x: V("int", x)), (lambda x: V("big", x)), (lambda x: V("byte", x)), (lambda x: V("float", x))
     out = []
@@ -1119,6 +1140,7 @@ def run(ctx):
             g = groups[key]
             keep = g[:12] + ctx.rng.sample(g[12:], min(len(g) - 12, 110)) if len(g) > 12 else g
             boundary += keep
+    boundary += [c for c in gen_sign_after_prefix() if c not in boundary]
     rnd = gen_random(ctx.rng, 1500 if ctx.quick() else 20000)
     cases = [c for c in boundary + rnd if writable(c)]
     models = run_models(exe, cases)
@@ -1158,6 +1180,8 @@ def run(ctx):
             cls = "%s/%s" % (key, dev)
             if case[0] in ("parse_int_radix", "parse_bigint_radix") and case[1][0][1].startswith("0x") and case[1][1][1] != 16 and o[0] == "ok":
                 cls = "parse-radix-drops-0x-prefix"     # the text was read without its first two characters
+            if case[0].startswith("parse_") and re.match(r"0[xb][+-]", case[1][0][1]) and o[0] == "ok":
+                cls = "parse-sign-after-prefix"         # "0x-1F" / "0b+1" read as a number
             ctx.report(cls,
                        "%s: %s; observed %s, demanded %s" % (describe(case), dev, show_obs(o), show_want(want)),
                        {"case": case, "program": block(0, case), "observed": o, "demanded_by_coq_spec": spec, "demanded_by_oracle": orc,
